@@ -408,10 +408,10 @@ fn run_scenario(sc: &Scenario, ops: &[Op], rng: &mut Rng, ev: &mut Ev, case: u64
 
 fn main() {
     let args = Args::parse("C17");
-    let n_cases = args.budget(24, 1500);
+    let n_cases = args.budget(24, 600);
     let hist_len = args.extra_u64("history").unwrap_or(if args.thorough() { 300 } else { 120 }) as usize;
     let max_threads = args.extra_u64("max-threads").unwrap_or(16) as usize;
-    let hammer_iters = args.extra_u64("hammer").unwrap_or(if args.thorough() { 200_000 } else { 30_000 }) as usize;
+    let hammer_iters = args.extra_u64("hammer").unwrap_or(if args.thorough() { 100_000 } else { 30_000 }) as usize;
     let perms = args.extra_u64("perms").unwrap_or(if args.thorough() { 10 } else { 3 }) as usize;
     let mut ev = Ev::new();
     let mut sigs: HashSet<u64> = HashSet::new();
